@@ -1,0 +1,13 @@
+//go:build verif
+
+// Contracts for package matlab, read by /verif/govc (comment-only file; excluded from every build without the tag "verif").
+package matlab
+
+// C11: a write error while a MATLAB package is produced is an error of `yardl generate` (exit status 1): it is
+// returned to the caller, not dropped, and an incomplete package is not reported as written.
+//@ func updatePackage
+//@   property C11
+//@   ensures write_error_propagates: errSeen(writePackageImpl) ==> result != nil
+
+// Output and diagnostics may not depend on the iteration order of a Go map (C12): decided per `range` over a map.
+//@ map-order C12 package
